@@ -348,6 +348,7 @@ impl<'a> UserModel<'a> {
         range: &Area,
         border_area: &BorderArea,
     ) -> Result<(), String> {
+        super::common::check_area(range)?;
         let sheet = range.sheet;
         let first_row = range.row;
         let first_column = range.column;
